@@ -279,6 +279,17 @@ Theorem C07_lazy_get_fresh : forall s li p L vs,
 Proof. exact lazy_get_fresh. Qed.
 Print Assumptions C07_lazy_get_fresh.
 
+(* ... stated for the smallest stack: ONE member (lazy_stack([td]), or what lazy[k:k+1] / split(1) / chunk(n) leave) — where a
+   "nothing to stack" shortcut (seeded change C07-4) would hand out a view of the member's own tensor *)
+Theorem C07_lazy_get_fresh_one_member : forall s li p m nb sel v,
+  xlz s li = Some (mkLazy [m] nb [sel]) -> member_leaf (hp (xb s)) p m = Some v ->
+  exists h1 v', xstep s (XLazyGet li p) = (xpush s h1 (RLeaf v'), Done)
+    /\ fresh_view (hp (xb s)) v' /\ stor_ext (hp (xb s)) h1 /\ hnodes h1 = hnodes (hp (xb s))
+    /\ forall chk vals h2 o, write_c chk h1 v' vals = (h2, o) ->
+         forall sid, sid < List.length (hstor (hp (xb s))) -> get_stor h2 sid = get_stor (hp (xb s)) sid.
+Proof. exact lazy_get_fresh_one_member. Qed.
+Print Assumptions C07_lazy_get_fresh_one_member.
+
 (* in-place arithmetic / zero_ through a stack = in-place on the members' own storages *)
 Theorem C07_lazy_arith_footprint : forall s li L ls i,
   xlz s li = Some L -> lazy_leaves (hp (xb s)) L = Some ls ->
@@ -356,4 +367,14 @@ Example C07_ex_lazy :
   snd (xstep s (XLazyGet 0 ["a"%string])) = Done /\ last (regs (xb sg)) (RNode 0) = RLeaf (mkView 2 [0; 1; 2; 3]) /\
   hstor (hp (xb sg)) = [[1; 2]; [3; 4]; [1; 2; 3; 4]]%Z /\ hstor (hp (xb sn)) = [[-1; -2]; [-3; -4]]%Z /\
   hstor (hp (xb (fst (xstep s (XMemmap 1))))) = [[1; 2]; [3; 4]; [1; 2]]%Z.
+Proof. vm_compute. repeat split. Qed.
+(* one member: get and contiguous() / to_tensordict() of the stack live in new storages; narrowing keeps the member objects *)
+Example C07_ex_one_member :
+  let s := one_member_state in
+  let sg := fst (xstep s (XLazyGet 0 ["a"%string])) in
+  let sc := fst (xstep s (XLazyDense 0 false)) in
+  xlz s 0 = Some (mkLazy [0] 3 [[0; 1; 2]]) /\
+  last (regs (xb sg)) (RNode 0) = RLeaf (mkView 1 [0; 1; 2]) /\ hstor (hp (xb sg)) = [[1; 2; 3]; [1; 2; 3]]%Z /\
+  resolve (hp (xb sc)) (last (regs (xb sc)) (RNode 0)) ["a"%string] = Some (RLeaf (mkView 1 [0; 1; 2])) /\
+  xlz (fst (xstep d73_state (XLazyNarrow 0 [1] 2 [[0; 1]]))) 1 = Some (mkLazy [1] 2 [[0; 1]]).
 Proof. vm_compute. repeat split. Qed.
